@@ -277,12 +277,17 @@ func (e *Exec) unbox(x *Term, t types.Type, pc *Term) Value {
 		if a := typeAssume(t, r); a != nil {
 			e.assume(pc, a)
 		}
+		// canonical representation of boxed values (all are built by box)
+		e.assume(pc, Eq(App(SSl, "o-sl", x), &Term{"nil-sl", SSl}))
 		return r
 	case SBool:
+		e.assume(pc, Eq(App(SSl, "o-sl", x), &Term{"nil-sl", SSl}))
+		e.assume(pc, Or(Eq(App(SInt, "o-int", x), IntLit(0)), Eq(App(SInt, "o-int", x), IntLit(1))))
 		return e.def(SBool, Eq(App(SInt, "o-int", x), IntLit(1)))
 	case SSl:
 		r := e.def(SSl, App(SSl, "o-sl", x))
 		e.assume(pc, App(SBool, "sl-ok", r))
+		e.assume(pc, Eq(App(SInt, "o-int", x), IntLit(0)))
 		return r
 	case SObj:
 		return x
